@@ -40,6 +40,7 @@ var c17OpNames = []string{
 	"sml.Parse", "hsms.Parse", "build.List", "hsms.ParseRejected", "hsms.ParseRejected", "sml.ParseRejected",
 	"complete.SetSession", "complete.SetWaitBit", "complete.Fill", "sml.ParseDeep", "hsms.ParseDeep",
 	"ctrl.SelectRsp", "ctrl.DeselectRsp", "ctrl.LinktestRsp", "ctrl.Observe", "ctrl.Observe",
+	"fix.ExpandAndInsertShared", "fix.ObserveShared",
 }
 
 type c17Shared struct {
@@ -54,6 +55,9 @@ type c17Shared struct {
 	badText  string
 	// shared control-message requests: answered and observed at the same time
 	selReq, deselReq, ltReq ast.HSMSMessage
+	// a template with an ellipsis and an item variable, and a shared item (with a variable of its own) that becomes
+	// the value of that item variable in a call that also expands the ellipsis and names the value's variable
+	fixTmpl, sharedVal ast.ItemNode
 }
 
 var c17DeepText = "S1F1 W H->E deep\n" + strings.Repeat("<L ", 130) + "<U1 1>" + strings.Repeat(">", 130) + "\n."
@@ -123,6 +127,10 @@ func (s *c17Shared) run(op string) string {
 		// a well-formed frame that only the message / item constructors refuse (panic + recover path of the decoder)
 		_, ok := hsms.Parse(s.rejected)
 		return fmt.Sprint("ok=", ok)
+	case "fix.ExpandAndInsertShared":
+		return itemString(s.fixTmpl.FillVariables(map[string]interface{}{"...": 1, "y_sh": "hi", "x_item": s.sharedVal}))
+	case "fix.ObserveShared":
+		return itemString(s.sharedVal) + strings.Join(s.sharedVal.Variables(), ",") + itemString(s.sharedVal.FillVariables(map[string]interface{}{"y_sh": "zz"}))
 	case "ctrl.SelectRsp":
 		return string(ast.NewHSMSMessageSelectRsp(s.selReq, 3).ToBytes())
 	case "ctrl.DeselectRsp":
@@ -211,6 +219,8 @@ func checkC17(c c17Case) (ci caseInfo, err error) {
 		sh.rejected = patchLen(append(append([]byte(nil), c07Header...), 0x41, 0x02, 0x61, 0xE9))
 	}
 	sh.badText = "S1F2 W H->E\n<L <A[2] \"abc\"> <U1 256> x x>\n."
+	sh.fixTmpl = ast.NewListNode(ast.NewUintNode(1, 7), "...", ast.NewASCIINodeVariable("y_other", 0, -1), "x_item")
+	sh.sharedVal = ast.NewListNode(ast.NewASCIINodeVariable("y_sh", 0, -1), ast.NewIntNode(2, 5), ast.NewListNode(ast.NewUintNode(1, "u_sh")))
 	sh.selReq = ast.NewHSMSMessageSelectReq(uint16(c.Variant*257), []byte{1, 2, 3, byte(c.Variant)})
 	sh.deselReq, _ = hsms.Parse(ast.NewHSMSMessageDeselectReq(uint16(c.Variant+9), []byte{9, 8, 7, 6}).ToBytes()) // a decoded request
 	sh.ltReq = ast.NewHSMSControlMessage([]byte{0x12, byte(c.Variant), 0, 0, 0, 5, 4, 3, 2, 1})                   // a raw one, bound to a session
